@@ -672,7 +672,9 @@ class CircuitDAG(CircuitBase):
                 if gate_class is not None:
                     circuit.add(gate_class(register=reg, reg_type=reg_type))
                 else:
-                    circuit_list = [ops.name_to_class_map(letter) for letter in name]
+                    # a wrapper is named by the concatenation of its gate names; "sdg" is the only multi-letter one
+                    tokens = re.findall(r"sdg|.", name)
+                    circuit_list = [ops.name_to_class_map(token) for token in tokens]
                     assert None not in circuit_list, (
                         f"Gate not recognized, parsing invalid/"
                         f"{name} parsed to {circuit_list}"
@@ -1086,11 +1088,33 @@ class CircuitDAG(CircuitBase):
                     reg_type=op["q_registers_type"][0],
                 )
             else:
-                gate = ops.name_to_class_map(op["type"])
-                gate = gate()
-                gate.q_registers = op["q_registers"]
-                gate.q_registers_type = op["q_registers_type"]
-                gate.c_registers = op["c_registers"]
+                # construct the operation with its registers, so that the attributes the compilers read
+                # (register types, control / target, classical register) are set consistently
+                gate_class = ops.name_to_class_map(op["type"])
+                q_regs = tuple(op["q_registers"])
+                q_types = tuple(op["q_registers_type"])
+                c_regs = tuple(op["c_registers"])
+                if issubclass(gate_class, ops.ClassicalControlledPairOperationBase):
+                    gate = gate_class(
+                        control=q_regs[0],
+                        control_type=q_types[0],
+                        target=q_regs[1],
+                        target_type=q_types[1],
+                        c_register=c_regs[0],
+                    )
+                elif issubclass(gate_class, ops.ControlledPairOperationBase):
+                    gate = gate_class(
+                        control=q_regs[0],
+                        control_type=q_types[0],
+                        target=q_regs[1],
+                        target_type=q_types[1],
+                    )
+                elif gate_class is ops.MeasurementZ:
+                    gate = gate_class(
+                        register=q_regs[0], reg_type=q_types[0], c_register=c_regs[0]
+                    )
+                else:
+                    gate = gate_class(register=q_regs[0], reg_type=q_types[0])
 
             circuit.add(gate)
 
